@@ -2,7 +2,7 @@
    Only statements and [exact]; proofs live in Proofs/Scopes*.v.  The scope definitions the theorems are about
    (Gen/ScopeDefs.v) are regenerated from the source of /repo on every run. *)
 From PG Require Import Common.Tactics Model.ScopesBase Gen.ScopeDefs Model.Scopes
-  Proofs.ScopesStore Proofs.ScopesInstance Proofs.ScopesRestore Proofs.ScopesCongruence Proofs.ScopesEffective Proofs.ScopesMachine Proofs.ScopesExamples.
+  Proofs.ScopesStore Proofs.ScopesInstance Proofs.ScopesRestore Proofs.ScopesCongruence Proofs.ScopesEffective Proofs.ScopesMachine Proofs.ScopesFrame Proofs.ScopesExamples.
 
 (* (1) RESTORATION.  For every well-nested program over all the managers — any depth, any argument values,
    exceptions raised anywhere and caught anywhere, enters that fail — and every state s (even an ill-typed one),
@@ -60,6 +60,13 @@ Theorem C17_detour_outer_wins : forall cur ms k, dict_has k cur = true ->
   dict_get k (dict_update cur (filter_map (detour_resolve cur) ms)) = dict_get k cur.
 Proof. exact detour_outer_wins. Qed.
 Print Assumptions C17_detour_outer_wins.
+
+(* ... and entering a manager changes no getter but its own (the thread-local keys regenerated from the source are
+   pairwise distinct, and every manager writes one slot only). *)
+Theorem C17_no_interference : forall c a s s1 sv q,
+  cm_enter c a s = Some (s1, sv) -> q <> getter_of c -> observe q s1 = observe q s.
+Proof. exact enter_no_interference. Qed.
+Print Assumptions C17_no_interference.
 
 (* (3) ISOLATION.  Any number of threads, any programs, any event schedule: a thread whose own program uses the
    thread-local managers and getters ends with exactly the observations, exception flag and thread store it has
